@@ -39,9 +39,9 @@ CLAIMED = {
     "C12": ("structural monitors (type/scope checkers for Core, uniquified Core, focused Core, AxCut, linear AxCut) on every value the real stages produce; panics caught around every stage and all three code generators",
             "Held on K accepted programs; capacity assertions are counted, not judged.",
             "Trusted: the harness' checkers (DESIGN 4).", "6/C12"),
-    "C14": ("static label-table and operand-range monitor over every instruction of the printed text of all three backends; GNU as (x86-64, after syntax-only transliteration) and clang's integrated assembler (AArch64) as acceptance oracles; jump-table stride measured from the objects' symbol tables; second pass re-using generated definition names",
+    "C14": ("static label-table and operand-range monitor over every instruction of the printed text of all three backends; GNU as (x86-64, after syntax-only transliteration), clang's integrated assembler (AArch64) and clang's RISC-V assembler (rv64 pseudo-assembly after a syntax-only transliteration; conditional branches written in the relaxed form) as acceptance oracles; jump-table stride measured from the objects' symbol tables; second pass re-using generated definition names",
             "Held on K emitted files per backend (hostile identifiers, large jump tables, boundary literals).",
-            "Trusted: the per-ISA operand-range tables of the harness; GNU as stands in for yasm (not installed); RISC-V output is pseudo-assembly, judged by the harness' validator only.", "6/C14"),
+            "Trusted: the per-ISA operand-range tables of the harness; GNU as stands in for yasm (not installed); RISC-V output is pseudo-assembly: judged by the harness' validator and, transliterated, by clang --target=riscv64 (branch distance not judged).", "6/C14"),
     "C15": ("acceptance monitor on well-typed-by-construction programs plus 29 classes of certainly ill-typed single edits applied at recorded syntactic sites; oracle = result of parse_module + Program::check",
             "Held on K generated programs and N mutants; per-class counts of applied and rejected mutants are in the evidence.",
             "Trusted: the generator's own typing discipline (DESIGN appendix A).", "6/C15"),
